@@ -26,12 +26,13 @@ type Engine struct {
 	cellSeq   int
 	unrolled  map[string]int // bounded-mode loop unrolling (unused in proof mode)
 	globals   map[*ssa.Global]*Cell
+	usedSpecContracts map[*ssa.Function]bool
 }
 
 func NewEngine(ld *Loaded) *Engine {
 	ts := NewStore()
 	e := &Engine{ld: ld, ts: ts, tc: NewTypeCtx(ts), heapSorts: map[string]Sort{}, trusted: map[string]bool{}, fuel: 2, inlineMax: 3,
-		specFns: map[*ssa.Function]*SpecInfo{}}
+		specFns: map[*ssa.Function]*SpecInfo{}, usedSpecContracts: map[*ssa.Function]bool{}}
 	return e
 }
 
@@ -390,6 +391,8 @@ func (c *FnCtx) checkReturn(fr *Frame, rp retPoint) {
 	for _, o := range fr.fc.Olds {
 		args = append(args, fr.olds[o.Name])
 	}
+	c.oldState = fr.entryState
+	defer func() { c.oldState = nil }()
 	for i, en := range fr.fc.Ensures {
 		gf := e.ld.GhostFunc(en.Fn)
 		r := c.evalGhost(rp.st, gf, args)
